@@ -157,6 +157,40 @@ func c14Cap(c *ev.Ctx, idx int, pool []c14Payload) {
 			}
 		}
 	}
+	{ // as many frames as AddFrame takes (up to 70000): where the muxer draws the line is its choice, but what it then
+		// assembles is read by both parsers, with every frame
+		cs := ev.Case{Idx: idx + 3, Desc: "AddFrame until refused (at most 70000 times) + Assemble"}
+		small := pool[0]
+		for _, p := range pool {
+			if p.Kind == "vp8l" && len(p.Prefixed) < len(small.Prefixed) || small.Kind != "vp8l" {
+				small = p
+			}
+		}
+		m := mux.NewMuxer()
+		added := 0
+		for ; added < 70000; added++ {
+			if err := m.AddFrame(small.Prefixed, &mux.FrameOptions{Duration: 10}); err != nil {
+				break
+			}
+		}
+		var buf bytes.Buffer
+		err := m.Assemble(&buf)
+		c.Eval(1)
+		c.Distinct("cap|frames")
+		c.Count(fmt.Sprintf("cap_frames_accepted_%d", added), 1)
+		if err == nil {
+			if dm, derr := mux.NewDemuxer(buf.Bytes()); derr != nil {
+				c.Violate(cs, "demuxer-rejects-muxer-output", map[string]string{"cap": "frames"}, fmt.Sprintf("AddFrame accepted %d frames, Assemble wrote %d bytes that NewDemuxer refuses: %v", added, buf.Len(), derr), nil)
+			} else if dm.NumFrames() != added {
+				c.Violate(cs, "demux/frame-count", map[string]string{"cap": "frames"}, fmt.Sprintf("%d frames accepted, demuxer sees %d", added, dm.NumFrames()), nil)
+			}
+			if ft, ferr := webp.GetFeatures(bytes.NewReader(buf.Bytes())); ferr != nil {
+				c.Violate(cs, "parser-rejects-muxer-output", map[string]string{"cap": "frames"}, fmt.Sprintf("AddFrame accepted %d frames, Assemble wrote %d bytes that GetFeatures refuses: %v", added, buf.Len(), ferr), nil)
+			} else if ft.FrameCount != added {
+				c.Violate(cs, "parsers-disagree", map[string]string{"on": "frames", "cap": "frames"}, fmt.Sprintf("%d frames accepted, GetFeatures reports %d", added, ft.FrameCount), nil)
+			}
+		}
+	}
 	for k, n := range []int{lim, lim + 1} {
 		cs := ev.Case{Idx: idx + k, Desc: fmt.Sprintf("SetEXIF(%d bytes) + AddFrame + Assemble", n)}
 		blob := make([]byte, n)
@@ -621,6 +655,10 @@ func c14One(c *ev.Ctx, cs ev.Case, pool []c14Payload, lwOK bool) {
 		got, gerr := dm.GetChunk(id)
 		wgot := [][]byte{info.ICC, info.EXIF, info.XMP}[k]
 		whas := []bool{info.HasICC, info.HasEXIF, info.HasXMP}[k]
+		if whas != (gerr == nil) { // a chunk that is in the file (walker) is one the demuxer finds, empty ones at the very end included
+			c.Violate(cs, "demux/metadata", map[string]string{"blob": name, "what": "presence"}, fmt.Sprintf("%s: chunk in the file=%v (walker), Demuxer.GetChunk err=%v", name, whas, gerr), rep())
+			continue
+		}
 		if want == nil {
 			if gerr == nil || whas {
 				c.Violate(cs, "demux/metadata-spurious", map[string]string{"blob": name}, name+" never set but present", rep())
